@@ -7,4 +7,6 @@ var zzEntries = map[string]func(){
 	"ZZ_C19_bmc":     ZZ_C19_bmc,
 	"ZZ_MP_step":     ZZ_MP_step,
 	"ZZ_MP_bmc":      ZZ_MP_bmc,
+	"ZZ_AUX_bmc":     ZZ_AUX_bmc,
+	"ZZ_AUX_step":    ZZ_AUX_step,
 }
